@@ -37,6 +37,20 @@ RULES = client_table.TABLE_RULES + [
          why='constructor passed as a function, eta-expanded'),
 ]
 
+def _complete_all_repl(m):
+    """R11/R9: computed replacement for the consumer of complete_all_requests (see the rule's `why`)."""
+    expr, ctor, args = m.group('expr'), m.group('ctor'), m.group('args')
+    if ctor == 'Channel' and args is not None and re.sub(r'\s+', '', args) == '(e.clone())':
+        ens = 'r matches Err(RpcError::Channel(c)) && c == *e__ref'
+    elif args is not None:
+        ens = 'r matches Err(RpcError::%s(..))' % ctor
+    else:
+        ens = 'r == Err::<Resp, RpcError>(RpcError::%s)' % ctor
+    return ('let e__ref = &e;\n'
+            '        let result__f = || -> (r: Result<Resp, RpcError>) ensures %s { %s };\n'
+            '        self.in_flight_requests.complete_all_requests(result__f, Tracked(fx));' % (ens, expr))
+
+
 TYPE_RULES = [
     Rule('R5:where-unsized', r'\nwhere\n\s*E: \?Sized,\n', '\n', flags=re.M, why='?Sized bound only matters for dyn upcasts'),
 ]
@@ -84,16 +98,6 @@ impl<E> ChannelError<E> {
     pub fn upcast_any(self) -> (r: Self) ensures r == self { unimplemented!() }
     #[verifier::external_body]
     pub fn downcast(self) -> (r: Result<Self, Self>) ensures r == Ok::<Self, Self>(self) { unimplemented!() }
-}
-impl<Res> InFlightRequests<Result<Res, RpcError>> {
-    /// ASSUMED (R11; bounded stand-in only): `complete_all_requests(|| Err(RpcError::Channel(e)))` consumed to the
-    /// end delivers that error to every in-flight call, and leaves no entry and no timer.
-    #[verifier::external_body]
-    pub fn complete_all_requests__assumed(&mut self, e: &ChannelError<TErr>, Tracked(fx): Tracked<&mut Fx<Result<Res, RpcError>>>)
-        requires old(self).wf(),
-        ensures final(self).wf(), final(self)@.dom().len() == 0, final(self).timers() =~= Map::<delay_queue::Key, delay_queue::Entry>::empty(),
-            channel_errors_only(old(fx).log, final(fx).log),
-    { unimplemented!() }
 }
 pub broadcast group group_wire { lemma_has_req_push, lemma_has_req_new }
 pub broadcast proof fn lemma_remove_len(m: Map<u64, CEntry>, k: u64)
@@ -384,9 +388,12 @@ def dispatch_parts():
               pre='broadcast use lemma_remove_len, lemma_insert_len;'),
             F('shut_down_with_terminal_error', fx=True, tags='C09', attrs='#[verifier::exec_allows_no_decreases_clause]',
               rules=[
-                  Rule('R11:complete-all', r'for span in self\s*\.in_flight_requests\s*\.complete_all_requests\(\|\| Err\(RpcError::Channel\(e\.clone\(\)\)\)\)\s*\{\s*\}',
-                       'self.in_flight_requests.complete_all_requests__assumed(&e, Tracked(fx));', 1, where='body', flags=re.M | re.S,
-                       why='R11 cut: `complete_all_requests` returns `impl Iterator` over a draining map with a closure (outside Verus); replaced by an ASSUMED contract (see trusted base)'),
+                  Rule('R11:complete-all', r'for span in self\s*\.in_flight_requests\s*\.complete_all_requests\(\|\|\s*(?P<expr>Err\(RpcError::(?P<ctor>\w+)(?P<args>\((?:[^()]|\([^()]*\))*\))?\))\s*\)\s*\{\s*\}',
+                       _complete_all_repl, 1, where='body', flags=re.M | re.S,
+                       why='R17 (consumer side): the `for` over the lazy iterator, whose body is empty once the tracing statements are dropped (R1) and which therefore '
+                           'runs it to exhaustion, is the call of `complete_all_requests` as emitted by R17 (proved in this unit from its real body); '
+                           'R9: the closure `|| Err(RpcError::V(..))` is bound to a name and annotated with the postcondition that is its own head constructor '
+                           '(for `Channel(e.clone())` also: the payload is e)'),
               ],
               requires='''
                 old(self).in_flight_requests.wf(), // @core
@@ -401,7 +408,19 @@ def dispatch_parts():
                 r is Pending ==> final(self).pending_requests@.reg && final(self).pending_requests@.closed_by_rx, // @C02
               ''',
               hints=[
-                  ('self.in_flight_requests.complete_all_requests__assumed(', '''
+                  ('let e__ref = &e;', '''
+                      let ghost g_pre = fx.log;
+                      let ghost g_view = self.in_flight_requests@;
+                  ''', 'before'),
+                  ('self.in_flight_requests.complete_all_requests(result__f', '''
+                      proof {
+                          let order = choose|order: Seq<u64>| delivered_all(g_view, g_pre, fx.log, order, result__f);
+                          assert forall|j: int| g_pre.len() <= j < fx.log.len() implies ((#[trigger] fx.log[j]) matches Effect::Deliver { value: Err(RpcError::Channel(_)), .. }) by {
+                              let i = j - g_pre.len();
+                              assert(fx.log[g_pre.len() + i] == fx.log[j]);
+                          }
+                          assert(channel_errors_only(old(fx).log, fx.log));
+                      }
                       let ghost g_base = fx.log.len();
                       let ghost mut g_open: nat = 0;
                   '''),
@@ -554,7 +573,7 @@ ACCESSOR_GUARDS = [
 
 
 def unit():
-    return Unit('client', prelude=['base.rs', 'time.rs', 'delay_queue.rs', 'oneshot_tx.rs', 'trace_models.rs', 'transport.rs', 'server_error.rs', 'client_queues.rs', 'cancellations.rs', 'client_guard.rs', 'client_call.rs'],
+    return Unit('client', prelude=['base.rs', 'time.rs', 'delay_queue.rs', 'oneshot_tx.rs', 'hash_iter.rs', 'trace_models.rs', 'transport.rs', 'server_error.rs', 'client_queues.rs', 'cancellations.rs', 'client_guard.rs', 'client_call.rs'],
                 parts=client_table.parts() + dispatch_parts() + guard_parts() + call_parts(), rules=RULES,
                 fx_fns=client_table.FX_CALLS + [r'\.complete\(', r'self\.pump_read__closure\(', r'\.pump_read\(', r'\.pump_write\(', r'\.poll_write_request\(', r'\.shut_down_with_terminal_error\(', r'self\.run\(', r'\.poll_expired\((?=cx, \|\|)'],
                 fx_prims=[r'response_completion\.send\(', r'self\.response\.close\(', r'self\.cancellation\.cancel\(', r'response_guard\.response\(', r'self\.to_dispatch\.send\('], fx_type='Fx<Res>',
